@@ -62,6 +62,31 @@ Definition eval_nx_provenance_ok (f : string) : bool :=
 Theorem C03_deferred_point_numbers_coherent :
   forallb eval_nx_provenance_ok funcs_using_eval_nx = true /\ Z.leb 4 (Z.of_nat (List.length funcs_using_eval_nx)) = true.
 Proof. vm_compute. split; reflexivity. Qed.
+(* a run is started with the caller's counters in the callee's order: every positional argument of the solve_main(...) calls in
+   solve() and of Controller(...) in solve_main is the variable that carries the value of the parameter in that position
+   (same name, or the documented alias), so that evaluation / point numbers continue where the previous run stopped *)
+Definition alias_ok (param arg : string) : bool :=
+  streq param arg ||
+  mem (param ++ "<-" ++ arg) ["x0<-xmin"; "nruns_so_far<-nruns"; "nf_so_far<-nf"; "nx_so_far<-nx"; "r0<-r0_avg"; "r0_nsamples<-num_samples_run"].
+Fixpoint positional_ok (params args : list string) : bool :=
+  match params, args with
+  | _, [] => true
+  | [], _ :: _ => false
+  | p :: ps, a :: rest => match index 0 "=" a with
+                          | Some _ => forallb (fun kw => match index 0 "=" kw with Some _ => true | None => false end) rest    (* keywords from here on *)
+                          | None => alias_ok p a && positional_ok ps rest
+                          end
+  end.
+Definition def_params (func : string) : list string :=
+  match filter (fun d => streq (d_func d) func && streq (d_kind d) "def") T_defs with [d] => d_params d | _ => [] end.
+Definition run_start_calls_ok : bool :=
+  let sm := filter (fun c => streq (c_func c) "solve") (calls_of T_calls "solve_main") in
+  let ct := filter (fun c => streq (c_func c) "solve_main") (calls_of T_calls "Controller") in
+  Nat.eqb (List.length sm) 3 && Nat.eqb (List.length ct) 1 &&
+  forallb (fun c => positional_ok (def_params "solve_main") (c_args c) && Nat.leb 22 (List.length (c_args c))) sm &&
+  forallb (fun c => positional_ok (List.tl (def_params "Controller.__init__")) (c_args c) && Nat.leb 17 (List.length (c_args c))) ct.
+Theorem C03_runs_start_with_the_callers_counters : run_start_calls_ok = true.
+Proof. vm_compute. reflexivity. Qed.
 (* swap_points is not used by the solver (no history of solve() contains it) *)
 Theorem C03_no_swap_in_solver : calls_of T_calls "swap_points" = [].
 Proof. vm_compute. reflexivity. Qed.
@@ -176,6 +201,7 @@ End C03.
 
 Print Assumptions C03_save_sites_coherent.
 Print Assumptions C03_deferred_point_numbers_coherent.
+Print Assumptions C03_runs_start_with_the_callers_counters.
 Print Assumptions C03_write_sites_coherent.
 Print Assumptions C03_sample_sites_coherent.
 Print Assumptions C03_result_tuples_forwarded.
